@@ -106,3 +106,169 @@ Theorem C14_code_uri_guard : forall p A (r : ref A),
   small (MaxCasURILength p) -> gen_provider_uriGuard p (uri_len r) = negb (uri_ok (limits_of p) r).
 Proof. exact (fun p A => @provider_uriGuard_tie p A). Qed.
 Print Assumptions C14_code_uri_guard.
+
+From SV Require Import Base.Bytes Json.Ast Json.Jcs Json.GoJson Json.GoJsonProofs Resolve.Op Batch.Files Batch.FilesOfBytes Batch.FilesOfBytesProofs.
+Local Close Scope Z_scope.
+
+(* on file BYTES: every struct decoder (json.Unmarshal into a file struct) gives the same answer for any amount of parser fuel above go_fuel, and less fuel can only turn an answer into an error: a decoding failure is a rejection (syntax, depth > 10000, wrong kind), never an exhausted counter *)
+Theorem C14_bytes_decoders_fuel_independent :
+  forall (T : Type) (f : T -> bytes -> gj -> option T) (zero : T) (b : bytes),
+         (forall k : nat,
+          unmarshal_tree f zero (parse_with_fuel (go_fuel b + k) b) = unmarshal f zero b) /\
+         (forall (n : nat) (x : T),
+          unmarshal_tree f zero (parse_with_fuel n b) = Some x -> unmarshal f zero b = Some x).
+Proof. exact unmarshal_fuel. Qed.
+Print Assumptions C14_bytes_decoders_fuel_independent.
+
+(* the same, instantiated for the five file decoders *)
+Theorem C14_bytes_file_decoders_fuel :
+  forall (b : bytes) (k : nat),
+         unmarshal_tree core_index_member core_index_zero (parse_with_fuel (go_fuel b + k) b) =
+         decode_core_index b /\
+         unmarshal_tree core_proof_member core_proof_zero (parse_with_fuel (go_fuel b + k) b) =
+         decode_core_proof b /\
+         unmarshal_tree prov_index_member prov_index_zero (parse_with_fuel (go_fuel b + k) b) =
+         decode_prov_index b /\
+         unmarshal_tree prov_proof_member prov_proof_zero (parse_with_fuel (go_fuel b + k) b) =
+         decode_prov_proof b /\
+         unmarshal_tree chunk_member chunk_zero (parse_with_fuel (go_fuel b + k) b) = decode_chunk b.
+Proof. exact file_decoders_fuel. Qed.
+Print Assumptions C14_bytes_file_decoders_fuel.
+
+(* whatever a file decoder accepts is the JSON text of an object or of null (encoding/json: null into a struct is a no-op) *)
+Theorem C14_bytes_decoded_is_object_or_null :
+  forall b : bytes,
+         (decode_core_index b <> None -> json_object_or_null b) /\
+         (decode_core_proof b <> None -> json_object_or_null b) /\
+         (decode_prov_index b <> None -> json_object_or_null b) /\
+         (decode_prov_proof b <> None -> json_object_or_null b) /\
+         (decode_chunk b <> None -> json_object_or_null b).
+Proof. exact decoded_is_object_or_null. Qed.
+Print Assumptions C14_bytes_decoded_is_object_or_null.
+
+(* GetTxnOperations on bytes succeeded: the anchor TEXT is '<count>.<uri>' with count = number of operations returned; every file on the path is in the CAS, within its size limit as served and after decompression, and decodes; URI length limits; proof-file reference discipline (a proof URI is present exactly when there are operations needing it); counts of index, proof and chunk files agree - all stated on the decoded Go structs *)
+Theorem C14_bytes_success_structure :
+  forall (L : limits) (F : facts) (C : cas) (a : bytes) (ops : list rop),
+         get_txn_operations_bytes L F C a = Some ops ->
+         exists (uri : bytes) (m : core_index_m),
+           parse_anchor a = (true, Z.of_nat (Datatypes.length ops), uri) /\
+           file_at L C (l_core_index L) uri decode_core_index m /\
+           (blen (cim_proof_uri m) <= l_uri_len L)%Z /\
+           (blen (cim_prov_uri m) <= l_uri_len L)%Z /\
+           (cim_proof_uri m <> [] <->
+            0 < Datatypes.length (core_recovers m) + Datatypes.length (core_deactivates m)) /\
+           (cim_proof_uri m <> [] ->
+            exists p : core_proof_m,
+              file_at L C (l_proof L) (cim_proof_uri m) decode_core_proof p /\
+              Datatypes.length (sl_elems (cpm_recover p)) = Datatypes.length (core_recovers m) /\
+              Datatypes.length (sl_elems (cpm_deactivate p)) = Datatypes.length (core_deactivates m)) /\
+           (cim_prov_uri m <> [] ->
+            exists (pi : prov_index_m) (ch : chunk_m) (c0 : chunk_ref_m) 
+            (rest : list chunk_ref_m),
+              file_at L C (l_prov_index L) (cim_prov_uri m) decode_prov_index pi /\
+              sl_elems (pim_chunks pi) = c0 :: rest /\
+              chm_uri c0 <> [] /\
+              (blen (chm_uri c0) <= l_uri_len L)%Z /\
+              file_at L C (l_chunk L) (chm_uri c0) decode_chunk ch /\
+              Datatypes.length (sl_elems (ckm_deltas ch)) =
+              Datatypes.length (core_creates m) + Datatypes.length (core_recovers m) +
+              Datatypes.length (prov_updates pi) /\
+              (blen (pim_proof_uri pi) <= l_uri_len L)%Z /\
+              (pim_proof_uri pi <> [] <-> 0 < Datatypes.length (prov_updates pi)) /\
+              (pim_proof_uri pi <> [] ->
+               exists pp : prov_proof_m,
+                 file_at L C (l_proof L) (pim_proof_uri pi) decode_prov_proof pp /\
+                 Datatypes.length (sl_elems (ppm_update pp)) = Datatypes.length (prov_updates pi))).
+Proof. exact bytes_success_structure. Qed.
+Print Assumptions C14_bytes_success_structure.
+
+(* distinct suffixes, for get_txn_operations (anchor_view_of_bytes ...) *)
+Theorem C14_bytes_suffixes_distinct :
+  forall (L : limits) (F : facts) (C : cas) (a : bytes) (ops : list rop),
+         get_txn_operations_bytes L F C a = Some ops -> NoDup (map ro_sfx ops).
+Proof. exact bytes_suffixes_distinct. Qed.
+Print Assumptions C14_bytes_suffixes_distinct.
+
+(* the didSuffix STRINGS of the recover, deactivate and update references in the files of a transaction that reads are pairwise distinct, whatever the interning of strings *)
+Theorem C14_bytes_ref_strings_distinct :
+  forall (L : limits) (F : facts) (C : cas) (a : bytes) (ops : list rop),
+         get_txn_operations_bytes L F C a = Some ops ->
+         exists (n : Z) (uri : bytes) (e : cas_entry) (m : core_index_m),
+           parse_anchor a = (true, n, uri) /\
+           cas_get C uri = Some e /\
+           decode_core_index (ce_content e) = Some m /\
+           NoDup (map om_did (core_recovers m ++ core_deactivates m)) /\
+           (cim_prov_uri m <> [] ->
+            exists (e' : cas_entry) (pi : prov_index_m),
+              cas_get C (cim_prov_uri m) = Some e' /\
+              decode_prov_index (ce_content e') = Some pi /\
+              NoDup (map om_did (core_recovers m ++ core_deactivates m ++ prov_updates pi))).
+Proof. exact bytes_ref_strings_distinct. Qed.
+Print Assumptions C14_bytes_ref_strings_distinct.
+
+(* the anchor string splits at its only '.' into a decimal number without sign or leading zero and the URI; the number is the positive number of operations returned *)
+Theorem C14_bytes_count_matches_anchor_text :
+  forall (L : limits) (F : facts) (C : cas) (a : bytes) (ops : list rop),
+         get_txn_operations_bytes L F C a = Some ops ->
+         exists digits uri : bytes,
+           split_dot [] a = [digits; uri] /\
+           positive_int_text digits = true /\
+           digits_val digits 0 = Some (Z.of_nat (Datatypes.length ops)) /\ 0 < Datatypes.length ops.
+Proof. exact bytes_count_matches_anchor_text. Qed.
+Print Assumptions C14_bytes_count_matches_anchor_text.
+
+(* an anchor string ParseAnchorData rejects is an error *)
+Theorem C14_bytes_bad_anchor_fails :
+  forall (L : limits) (F : facts) (C : cas) (a : bytes) (n : Z) (uri : bytes),
+         parse_anchor a = (false, n, uri) -> get_txn_operations_bytes L F C a = None.
+Proof. exact bytes_bad_anchor_fails. Qed.
+Print Assumptions C14_bytes_bad_anchor_fails.
+
+(* arbitrary bytes: a file on the path of GetTxnOperations that is missing, unreadable, oversize as served or after decompression, not decompressible, or whose bytes the decoder of its struct rejects, makes the transaction fail *)
+Theorem C14_bytes_bad_file_fails :
+  forall (L : limits) (F : facts) (C : cas) (a : bytes),
+         bad_file L C a -> get_txn_operations_bytes L F C a = None.
+Proof. exact bytes_bad_file_fails. Qed.
+Print Assumptions C14_bytes_bad_file_fails.
+
+(* in particular bytes that are not the JSON text of an object or of null are rejected by every file decoder *)
+Theorem C14_bytes_not_json_object_is_bad :
+  forall (L : limits) (max : Z) (e : cas_entry),
+         ~ json_object_or_null (ce_content e) ->
+         bad_entry L max decode_core_index (Some e) /\
+         bad_entry L max decode_core_proof (Some e) /\
+         bad_entry L max decode_prov_index (Some e) /\
+         bad_entry L max decode_prov_proof (Some e) /\ bad_entry L max decode_chunk (Some e).
+Proof. exact not_json_object_is_bad. Qed.
+Print Assumptions C14_bytes_not_json_object_is_bad.
+
+(* size and decompression limits of the core index file, on the CAS entry *)
+Theorem C14_bytes_oversize_core_index_rejected :
+  forall (L : limits) (F : facts) (C : cas) (a : bytes) (n : Z) (uri : bytes) (e : cas_entry),
+         parse_anchor a = (true, n, uri) ->
+         cas_get C uri = Some e ->
+         (ce_raw_size e > l_core_index L)%Z \/ (blen (ce_content e) > l_core_index L * l_factor L)%Z ->
+         get_txn_operations_bytes L F C a = None.
+Proof. exact bytes_oversize_core_index_rejected. Qed.
+Print Assumptions C14_bytes_oversize_core_index_rejected.
+
+(* non-vacuity: a real file set (create, recover, update written by the real handler) reads from its bytes *)
+Theorem C14_bytes_nonvacuous_reads :
+  option_map (map ro_ty) (get_txn_operations_bytes ex_limits ex_facts ex_cas ex_anchor) =
+         Some [Create; Recover; Update].
+Proof. exact ex_reads. Qed.
+Print Assumptions C14_bytes_nonvacuous_reads.
+
+(* non-vacuity of bad_file: the same CAS with the chunk file replaced by a JSON array *)
+Theorem C14_bytes_nonvacuous_bad_file :
+  get_txn_operations_bytes ex_limits ex_facts ex_cas_bad_chunk ex_anchor = None.
+Proof. exact ex_bad_chunk_fails. Qed.
+Print Assumptions C14_bytes_nonvacuous_bad_file.
+
+(* the limit of the previous theorems: a chunk file whose content is the text null is accepted (one deactivate, provisional index without operations); observed on the real provider *)
+Theorem C14_bytes_null_chunk_accepted :
+  option_map (map ro_ty)
+           (get_txn_operations_bytes ex_limits ex_null_facts ex_null_cas ex_null_anchor) =
+         Some [Deactivate].
+Proof. exact ex_null_chunk_accepted. Qed.
+Print Assumptions C14_bytes_null_chunk_accepted.
